@@ -47,6 +47,8 @@ def construct(cls):
     if issubclass(cls, AbstractStateContainer):
         obj = cls(None)
         obj.DescriptorHandle = 'h'
+        if obj.is_multi_state:
+            obj.Handle = 'hs'     # update_from_other_container insists on equal handles
         return obj
     try:
         return cls()
